@@ -23,15 +23,16 @@ overflow-checking profile does not trap.  `Op.panic` stands for a failing
 `assert!`/`clamp`/division; the theorems show it is never emitted.
 -/
 import DdsModel.Layout
+import DdsModel.SrcConsts
 namespace Dds.Stream
 open Dds
 
 /-- `isize::MAX`, the `LIMIT` of `check_likely_overflow` -/
 def ISIZE_MAX : Nat := 9223372036854775807
 /-- `UntypedLineBuffer::new::TARGET_BUFFER_SIZE` -/
-def TARGET_BUFFER_SIZE : Nat := 65536
+def TARGET_BUFFER_SIZE : Nat := SrcConsts.TARGET_BUFFER_SIZE   -- 65536 at the pinned commit; regenerated from the source
 /-- `DecodeOptions::default().memory_limit` (33 MiB) -/
-def DEFAULT_MEMORY_LIMIT : Nat := 33 * 1024 * 1024
+def DEFAULT_MEMORY_LIMIT : Nat := SrcConsts.DEFAULT_MEMORY_LIMIT   -- 33 MiB at the pinned commit; regenerated from the source
 
 inductive Op where
   /-- `DecodeContext::alloc(n)` / the `reserve_bytes + try_reserve_exact` half of `alloc_read` -/
